@@ -251,7 +251,7 @@ class TriggerHandler:
             # a config update that was still queued when we were shut down must not bring the tracepoints back
             return
         self._tp_config = new_config
-        if len(new_config) > 0 and self.__hooks_installed and not self.__no_trace():
+        if len(new_config) > 0 and self.__hooks_installed and not self.__shutdown and not self.__no_trace():
             # (an agent that has not been started acts nowhere: it does not reach into the calls in progress either)
             self.__trace_running_calls()
 
@@ -273,6 +273,9 @@ class TriggerHandler:
                     frame = frame.f_back
         except BaseException:
             logging.exception("Cannot trace the calls in progress")
+        if self.__shutdown:
+            # shutdown() has come meanwhile (the poll runs on its own thread) and may have been through already
+            self.__release_running_calls()
 
     def __is_of_a_stopped_agent(self, function, frame: FrameType) -> bool:
         # the function of an agent that has been shut down answers None to every event of the frame, and python keeps it
